@@ -49,7 +49,7 @@ type c07Observer struct {
 	count        int
 
 	phase, stageDigestSkipped                                                 int
-	snapshots, ntSnapshots, shadowEvents, shadowsDone, maskedLate, maskedOld int
+	snapshots, ntSnapshots, shadowEvents, shadowsDone, maskedLate, maskedOld, maskedNilHandle int
 	maxPeriodRouters, withEquiv, withPending, withActions           int
 }
 
@@ -220,6 +220,31 @@ func c07OldRoundProposalVote(e externalEvent, before player) bool {
 	return uv.R.Step == propose && uv.R.Round < before.Round
 }
 
+// c07MaskNilHandleTail: message.messageHandle is unexported ("we can't define serializers for interface{}", message.go:29)
+// so a payload tail waiting in player.Pending loses its handle on restore. When the step-0 vote it waits for is verified,
+// the tail is popped and handled (player.go:597-609); with a nil handle the player takes it for its own proposal and adds
+// the "relay as the proposer" action (player.go:690-703). The restored node therefore emits the live node's actions plus
+// extra relays of that compound message. State is not affected.
+func c07MaskNilHandleTail(e externalEvent, live, shadow []action) bool {
+	me, ok := e.(messageEvent)
+	if !ok || me.T != voteVerified || me.Input.UnauthenticatedVote.R.Step != propose {
+		return false
+	}
+	strip := func(as []action) (rest []action, pp int) {
+		for _, a := range as {
+			if na, ok := a.(networkAction); ok && na.T == relay && na.Tag == protocol.ProposalPayloadTag {
+				pp++
+				continue
+			}
+			rest = append(rest, a)
+		}
+		return
+	}
+	rl, nl := strip(live)
+	rs, ns := strip(shadow)
+	return ns > nl && c07ActionsEqual(rl, rs) == ""
+}
+
 // c07MaskLateCredential recognises the one documented behavioural effect of a non-restored field inside the horizon:
 // proposalSeeker.lowestIncludingLate/hasLowestIncludingLate (proposalTracker.go, unexported, feeds only the dynamic filter
 // timeout statistics) makes a restored node answer a step-0 voteVerified that arrives after the freeze with
@@ -272,6 +297,8 @@ func (o *c07Observer) transition(n *engaNode, e externalEvent, before player, ac
 				sh.left = 0
 			} else if c07MaskLateCredential(e, actions, a2) {
 				o.maskedLate++
+			} else if c07MaskNilHandleTail(e, actions, a2) {
+				o.maskedNilHandle++
 			} else {
 				s.failf("C07: restored node %d diverges from the live node %d events after the fork on %s: %s\n live:     %s\n restored: %s",
 					n.id, sh.age, engaEventStr(e), d, engaActionsStr(actions), engaActionsStr(a2))
@@ -462,6 +489,7 @@ func TestVerif_C07_Restore(t *testing.T) {
 		vk.Add("forks_completed", int64(o.shadowsDone))
 		vk.Add("masked_late_credential", int64(o.maskedLate))
 		vk.Add("forks_ended_by_old_round_proposal_vote", int64(o.maskedOld))
+		vk.Add("masked_nil_handle_tail_relay", int64(o.maskedNilHandle))
 		vk.Add("snapshots_with_stageDigest_action_left_out", int64(o.stageDigestSkipped))
 	})
 }
